@@ -45,6 +45,7 @@ fn cmd_sim(args: &[String]) -> i32 {
             "cfgrun" => gen::gen_cfgrun(seed, n),
             "long" => gen::gen_long(seed, n),
             "unpriv" => gen::gen_unpriv(seed, n),
+            "grow" => gen::gen_grow(seed, n),
             f => {
                 eprintln!("unknown family {f}");
                 return 2;
